@@ -24,7 +24,8 @@ def parseCmd (c : String) : Option Cmd :=
       | _ => none
   | some 's' => arg.toNat?.map .s
   | some 'D' => match arg.splitOn ":" with
-      | [i, p, h] => do pure (.D (← i.toNat?) (← p.toNat?) (← unhex h))
+      -- Serve reads into a buffer of MaxPacketLength octets: what the goroutine sees of a longer datagram is its first 4096 octets
+      | [i, p, h] => do pure (.D (← i.toNat?) (← p.toNat?) ((← unhex h).take 4096))
       | _ => none
   | some 'd' => arg.toNat?.map .d
   | some 'F' => match arg.splitOn ":" with
